@@ -59,6 +59,23 @@ inductive PKind
   | other (what : String)
 deriving DecidableEq, Repr
 
+/-- `ExceptionRetryPolicy` parameters (whole numbers: the scenarios use whole seconds and integer exponents). -/
+structure GPolicy where
+  maxAttempts : Nat
+  exponent : Nat
+  sleep : Nat
+  maxSleep : Nat
+  base : List Nat          -- exception classes of `exception_base`
+deriving DecidableEq, Repr
+
+/-- What `_get_next_job` reads of a `RetryJob`. -/
+structure GRJob where
+  fut : Nat
+  hasDelegate : Bool
+  stopRetry : Bool
+  when : Nat
+deriving DecidableEq, Repr
+
 def listFoldMin : List Nat → Nat
   | [] => 0
   | [x] => x
